@@ -391,6 +391,21 @@ impl InvalidationRegistry {
         count
     }
 
+    /// Verification only: addresses of the registry's raw locks, by role.
+    #[cfg(feature = "verif-hooks")]
+    pub fn verif_lock_addrs(&self) -> Vec<(&'static str, usize)> {
+        unsafe {
+            vec![
+                ("reg.tag", self.tag_to_caches.raw() as *const _ as *const u8 as usize),
+                ("reg.event", self.event_to_caches.raw() as *const _ as *const u8 as usize),
+                ("reg.dep", self.dependency_to_caches.raw() as *const _ as *const u8 as usize),
+                ("reg.meta", self.cache_metadata.raw() as *const _ as *const u8 as usize),
+                ("reg.clr", self.clear_callbacks.raw() as *const _ as *const u8 as usize),
+                ("reg.chk", self.invalidation_check_callbacks.raw() as *const _ as *const u8 as usize),
+            ]
+        }
+    }
+
     /// Clear all registrations
     pub fn clear(&self) {
         self.tag_to_caches.write().clear();
